@@ -160,6 +160,8 @@ where
     }
 
     fn finish(&mut self, _: &Header) -> io::Result<()> {
-        Ok(())
+        // Flush what the underlying writer (e.g., a BGZF or buffered writer) has staged, so that an
+        // I/O error is returned here rather than being discarded when the writer is dropped.
+        self.inner.flush()
     }
 }
